@@ -105,7 +105,8 @@ Inductive gev :=
 | GSend (es : list sdentry) (d : dest) (flag : bool) (sid : N)
 | GRefresh (st : store_id) (a : addr) (k : key) (ttl : N)      (* a TimedStore entry is (re)stored with this TTL *)
 | GExpire (st : store_id) (a : addr) (k : key)                  (* a TimedStore entry is removed by its expiry timer *)
-| GMulti (l : N).                                               (* recording listener l is registered while it already has a registration *)
+| GMulti (l : N)                                                (* recording listener l is registered while it already has a registration *)
+| GDupSub (ep : addr).                                          (* subscribe_eventgroup for ids that are already requested from server ep *)
 
 Record world := mkWorld {
   now : N;
